@@ -37,7 +37,18 @@ static RFA g1word(uint64_t i)
 }
 static const uint64_t G1WORD = 93 * 16;
 
+static void genPairFARaw(uint64_t idx, vh::Rng& g, int& nsym, RFA& a, RFA& b, std::string& kind);
 static void genPairFA(uint64_t idx, vh::Rng& g, int& nsym, RFA& a, RFA& b, std::string& kind)
+{
+	genPairFARaw(idx, g, nsym, a, b, kind);
+	if (!R->inputFile.empty())
+	{	// --input FILE: replace the generated pair (shrinker)
+		std::vector<RFA> auts; int k = parseCaseTextFA(slurpFile(R->inputFile), nsym, auts);
+		if (k < 2) { fprintf(stderr, "cannot parse --input file (two automata needed)\n"); exit(2); }
+		a = auts[0]; b = auts[1]; kind = "input-file";
+	}
+}
+static void genPairFARaw(uint64_t idx, vh::Rng& g, int& nsym, RFA& a, RFA& b, std::string& kind)
 {
 	uint64_t nEx = static_cast<uint64_t>(R->param("exhaustive", 3000));
 	int S = static_cast<int>(R->param("S", 8)), T = static_cast<int>(R->param("T", 20));
